@@ -26,3 +26,5 @@ pub mod intrinsics;
 pub mod macros;
 pub mod test_utils;
 pub mod utils;
+#[cfg(a4lg_ffuzzy_verif)]
+pub mod verif_hooks;
